@@ -3,6 +3,7 @@ import Tickit.Proof.WinFlush
 import Tickit.Gen.Win
 import Tickit.Proof.WinDamage
 import Tickit.Proof.WinSteps
+import Tickit.Proof.WinGeom
 import Tickit.Props.C02
 /-
   C01 — The flushed screen equals the painter's-model composition of the window tree.
@@ -118,16 +119,20 @@ structure Good (content : Id → Int → Int → Cell) (st : St) : Prop where
   rootWin : RootWin st.tree
   /-- the damage set satisfies the invariant of C05 (in particular its rectangles are pairwise disjoint) -/
   dinv : RectSet.Inv st.tree.root.damage
+  onlyRoot : OnlyRoot st.tree
 
 inductive Op where
   | expose (id : Id) (e : Option Rect)
+  | geom (id : Id) (rect : Rect)
   | hide (id : Id)
   | show (id : Id)
   | flush
 deriving Repr
 
-/-- Hiding or showing the root window itself is outside this theorem (the composition is then empty). -/
+/-- Hiding or showing the root window itself is outside this theorem (the composition is then empty); the root's
+    geometry follows the terminal. -/
 def Op.Ok : Op → Prop
+  | .geom id _ => id ≠ 0
   | .hide id => id ≠ 0
   | .show id => id ≠ 0
   | _ => True
@@ -135,6 +140,10 @@ def Op.Ok : Op → Prop
 def runOp (beh : Id → Rect → List DrawOp) (st : St) : Op → Res St
   | .expose id e => do
     let t ← WinTree.expose st.tree st.fuel id e
+    pure { st with tree := t }
+  | .geom id rect => do
+    -- `tickit_window_set_geometry`, then the exposes the proviso demands: old and new area, in the parent
+    let t ← setGeometryExposed st.tree st.fuel id rect
     pure { st with tree := t }
   | .hide id => do
     let t ← WinTree.hide st.tree st.fuel id
@@ -159,6 +168,7 @@ theorem inv_step_expose (content : Id → Int → Int → Cell) (st : St) (id : 
   obtain ⟨hw, hne, hdi, hfl, hcov⟩ := expose_spec st.fuel st.tree id e t' h hg.nonempty hg.pos
   refine { wf := wfp_congr hw hg.wf
            rootWin := rootWin_congr hw hg.rootWin
+           onlyRoot := onlyRoot_congr hw hg.onlyRoot
            dinv := hdi hg.dinv
            root := rootOk_congr hw hg.root
            rootTop := by intro w hw'; rw [hw] at hw'; exact hg.rootTop w hw'
@@ -240,6 +250,7 @@ theorem inv_step_flush (beh : Id → Rect → List DrawOp) (content : Id → Int
     have hww : st'.tree.wins = st.tree.wins := by rw [hw', htw]
     refine ⟨{ wf := wfp_congr hww hg.wf
               rootWin := rootWin_congr hww hg.rootWin
+              onlyRoot := onlyRoot_congr hww hg.onlyRoot
               dinv := by rw [hd']; exact (RectSet.inv_iff _).2 RectSet.invS_nil
               root := rootOk_congr hww hg.root
               rootTop := by intro w hw''; rw [hww] at hw''; exact hg.rootTop w hw''
@@ -275,6 +286,46 @@ theorem inv_step_vis (content : Id → Int → Int → Cell) (st : St) (id : Id)
            inv := hinv
            wf := hwf
            rootWin := hrw
+           onlyRoot := onlyRoot_congr hwins (onlyRoot_sameBut hsb hg.onlyRoot)
+           dinv := hdi hg.dinv }
+  · rcases hfl with hr | ⟨_, _, hq⟩
+    · show t'.root.changes = []
+      rw [hr]; exact hg.noQueue
+    · show t'.root.changes = []
+      rw [hq]; exact hg.noQueue
+  · rcases hfl with hr | ⟨h1, _, _⟩
+    · intro hd
+      show t'.root.needsExpose = true
+      rw [hr]
+      exact hg.flagged (by show st.tree.root.damage ≠ []; rw [← hr]; exact hd)
+    · intro _; exact h1
+  · rcases hfl with hr | ⟨_, h2, _⟩
+    · intro hd
+      show t'.root.needsLater = true
+      rw [hr]
+      exact hg.later (by show st.tree.root.damage ≠ []; rw [← hr]; exact hd)
+    · intro _; exact h2
+
+/-- **`inv_step` for a geometry change** of any window but the root, followed — as the property's proviso demands — by
+    the exposes of the old and the new area: every cell whose owner changes lies under the old or the new rectangle
+    (`Proof/WinGeom.lean`). -/
+theorem inv_step_geom (content : Id → Int → Int → Cell) (st : St) (id : Id) (rect : Rect) (t' : Tree) (hid : id ≠ 0)
+    (h : setGeometryExposed st.tree st.fuel id rect = .ok t') (hg : Good content st) :
+    Good content { st with tree := t' } := by
+  obtain ⟨hinv, hwf, hrw, hor, hne, hdi, hpos, hfl, t1, hsb, hwins⟩ :=
+    geom_step content st.screen st.tree t' id rect h hid hg.wf hg.rootWin hg.onlyRoot hg.nonempty hg.pos hg.inv
+  obtain ⟨rw0, hrw0, _, _, hrp, _, _⟩ := hrw.ex
+  refine { root := rootOk_congr hwins (rootOk_sameButG hsb hid hg.root)
+           rootTop := by intro w hw'; rw [hrw0] at hw'; cases hw'; exact hrp
+           pos := hpos
+           nonempty := hne
+           noQueue := ?_
+           flagged := ?_
+           later := ?_
+           inv := hinv
+           wf := hwf
+           rootWin := hrw
+           onlyRoot := hor
            dinv := hdi hg.dinv }
   · rcases hfl with hr | ⟨_, _, hq⟩
     · show t'.root.changes = []
@@ -297,6 +348,15 @@ theorem inv_step_vis (content : Id → Int → Int → Cell) (st : St) (id : Id)
 theorem good_step (beh : Id → Rect → List DrawOp) (content : Id → Int → Int → Cell) (hrep : Repaints content beh)
     (st st' : St) (op : Op) (hop : op.Ok) (h : runOp beh st op = .ok st') (hg : Good content st) : Good content st' := by
   cases op with
+  | geom id rect =>
+    simp only [runOp, bind, Bind.bind] at h
+    cases he : setGeometryExposed st.tree st.fuel id rect with
+    | ub w => rw [he] at h; cases h
+    | ok t' =>
+      rw [he] at h
+      simp only [pure, Pure.pure] at h
+      cases h
+      exact inv_step_geom content st id rect t' hop he hg
   | hide id =>
     simp only [runOp, bind, Bind.bind] at h
     cases he : WinTree.hide st.tree st.fuel id with
@@ -350,7 +410,8 @@ theorem good_run (beh : Id → Rect → List DrawOp) (content : Id → Int → I
         (good_step beh content hrep st st1 op (hok op List.mem_cons_self) h1 hg)
 
 /-- **`C01_partial`**: on every tree (any shape, geometry, z-order, visibility), for every history of exposes of any
-    rectangles of any windows, hides and shows of any windows but the root, interleaved with flushes, and for all handlers that repaint what they are asked to: after
+    rectangles of any windows, moves and resizes (each followed by the
+    exposes of the old and new area), hides and shows of any windows but the root, interleaved with flushes, and for all handlers that repaint what they are asked to: after
     every flush every owned terminal cell shows what its owner paints there. -/
 theorem C01_partial (beh : Id → Rect → List DrawOp) (content : Id → Int → Int → Cell) (hrep : Repaints content beh)
     (st0 : St) (hg : Good content st0) (ops : List Op) (hok : ∀ op ∈ ops, op.Ok) (st1 st2 : St) (shots : List Shot)
@@ -453,6 +514,12 @@ theorem good_init (content : Id → Int → Int → Cell) (lines cols : Int) (pe
              | zero => simp at hw'; subst hw'; cases hch
              | succ k => simp at hw'⟩
            rootWin := ⟨⟨_, hw, rfl, rfl, rfl, rfl, rfl⟩⟩
+           onlyRoot := by
+             intro x w hw' _
+             rw [hwins] at hw'
+             cases x with
+             | zero => rfl
+             | succ k => simp at hw'
            dinv := by
              rw [hd]
              exact (RectSet.inv_iff _).2 ⟨by intro x hx; simp at hx; subst hx; exact ⟨hl, hc⟩, List.pairwise_singleton _ _⟩
